@@ -311,6 +311,18 @@ def proof_stage(ctx, props_file, extra_files=()):
         "theorem_files": files,
         "print_assumptions": assum,
     }
+    if ok and okp and ctx.tier != "quick":
+        # independent re-check of the compiled files (and everything they depend on) by coqchk
+        mod = "Verif." + props_file[:-2].replace("/", ".")
+        with Lock("coq"):
+            rc, out = sh(["coqchk", "-silent", "-o", "-Q", ".", "Verif", mod], cwd=COQ, timeout=3600)
+        summary = re.sub(r"\s+", " ", out[out.find("CONTEXT SUMMARY"):] if "CONTEXT SUMMARY" in out else out[-400:]).strip()
+        cov["coqchk"] = {"cmd": "coqchk -silent -o -Q . Verif " + mod, "exit": rc, "summary": summary[:600]}
+        cov["checker_cmd"] += " ; coqchk -silent -o " + mod
+        if rc != 0 or "Axioms: <none>" not in summary:
+            okp = False
+            plog = "coqchk: " + summary
+            cov["discharged"] = 0
     axioms = sorted({k for k, v in assum.items() if "Closed under the global context" not in v})
     if axioms:
         cov["trusted_base"].append("axioms reported by Print Assumptions for: " + ", ".join(axioms))
